@@ -528,9 +528,14 @@ func ruleC05Nib(e *Env, hyph []int) {
 				}
 			}
 		case *ssa.UnOp:
-			if ia2, ok := x.X.(*ssa.IndexAddr); ok && flow.GlobalLoad(ia2.X) == startsG {
+			if ia2, ok := x.X.(*ssa.IndexAddr); ok && (flow.GlobalLoad(ia2.X) == startsG || ia2.X == ssa.Value(startsG)) {
 				startVal = x
 				walk(ia2.Index, depth+1)
+			}
+		case *ssa.Index: // range over an array value loaded from the table
+			if flow.GlobalLoad(x.X) == startsG {
+				startVal = x
+				walk(x.Index, depth+1)
 			}
 		}
 	}
@@ -850,7 +855,14 @@ func ruleC05Strict(e *Env, hyph []int) {
 		return true
 	}
 	mk := func() []pred.Val { return []pred.Val{pred.Sym{Name: "input"}, pred.Sym{Name: "r"}} }
-	leaves, err := extractTree(e.P.SSA, dp, mk, nil, fixed, keyOf, domain, prune)
+	sums := map[string]pred.Summary{}
+	if pd := e.P.Func("uu", "parseDigit"); pd != nil {
+		// the digit loop is C05.nib / C05.digit's business: here every digit is taken as valid
+		sums[pd.String()] = func(ev *pred.Evaluator, args []pred.Val) (pred.Val, error) {
+			return pred.Tuple{pred.Term{Fn: "digit", Args: args[:1]}, pred.Const{V: constant.MakeBool(true)}}, nil
+		}
+	}
+	leaves, err := extractTree(e.P.SSA, dp, mk, sums, fixed, keyOf, domain, prune)
 	if err != nil {
 		e.S.Unk(rule, site, "table", err.Error(), e.Pos(dp))
 		return
